@@ -275,6 +275,7 @@ static void case_c10(const drvargs_t *a,long id){
 }
 
 /* ------------------------------------------------------------------ C17 */
+static void half_filter(float **pcm,long channels,long samples,void *param){ (void)param; for(long c=0;c<channels;c++) for(long i=0;i<samples;i++) pcm[c][i]*=0.5f; }
 static void case_c17(const drvargs_t *a,long id){
   rng_t r; rng_seed(&r,a->seed,17,(uint64_t)id);
   chaindesc_t cd; buf_t phys; buf_init(&phys); char desc[700];
@@ -315,7 +316,8 @@ static void case_c17(const drvargs_t *a,long id){
     unsigned char *raw=malloc((size_t)length+mis+1); unsigned char *buf=raw+mis;
     memset(raw,0xA5,(size_t)length+mis);
     int bsB=-1; int nosec=rng_chance(&r,0.3);   /* the section pointer is optional: a caller that passes NULL must get the same bytes */
-    long got=ov_read(&B.vf,(char*)buf,length,be,word,sgned,nosec?NULL:&bsB); if(nosec) bsB=bsA;
+    int usefilt= (word==1||word==2) && rng_chance(&r,0.2);   /* ov_read_filter with a filter that is not idempotent (halves every sample): it must see each delivered sample exactly once, whatever the buffer length */
+    long got= usefilt? ov_read_filter(&B.vf,(char*)buf,length,be,word,sgned,nosec?NULL:&bsB,half_filter,NULL) : ov_read(&B.vf,(char*)buf,length,be,word,sgned,nosec?NULL:&bsB); if(nosec) bsB=bsA; if(usefilt) res_count("filtered_integer_reads",1);
     res_eval(1);
     if(word<=0 || (availA>0 && length<frame)){
       res_count("error_requests",1);
@@ -342,7 +344,7 @@ static void case_c17(const drvargs_t *a,long id){
       const unsigned char *p=buf+(j*ch+c)*word;
       if(word==1) val=p[0]; else val= be? ((long)p[0]<<8|p[1]) : ((long)p[1]<<8|p[0]);
       if(sgned){ if(word==1){ if(val>=128)val-=256; } else if(val>=32768)val-=65536; } else val-= (word==1?128:32768);
-      float x=pcm[c][j]; if(x!=x) continue;
+      float x=pcm[c][j]; if(x!=x) continue; if(usefilt) x*=0.5f;
       double v=(double)x*scale;
       int ok;
       if(v>=hi+0.5){ ok=(val==hi); clipped++; }
